@@ -378,6 +378,123 @@ pub fn for_net(net: &Net, tier: Tier, st: &mut Stats) {
     }
 }
 
+// ---------------------------------------------------------------------------------------------
+// sub-searches of Yen's algorithm under limits (sandboxed: Yen's can hang on this tree, see C13)
+
+fn yens_nets(tier: Tier) -> Vec<Net> {
+    use crate::world::net::{for_each_in_shard, shards};
+    let specs = vec![
+        GenSpec { n: 4, max_edges: tier.pick(4, 5), max_mult: 1, n_len: 1, self_loops: false, mode: LenMode::PowersOfTwo },
+        GenSpec { n: 5, max_edges: tier.pick(4, 5), max_mult: 1, n_len: 1, self_loops: false, mode: LenMode::PowersOfTwo },
+    ];
+    let mut out = vec![];
+    // structured family "main path + detour": the least-cost path 0 -> 1 -> ... -> p has p edges; a detour of q edges
+    // leaves it at vertex 1 and rejoins at the destination. with q > p the spur search needs more expansions than
+    // the first search, so there are limit values that let the first search pass and stop a sub-search.
+    for p in 3..=4usize {
+        for q in 2..=tier.pick(6usize, 8usize) {
+            let n = p + 1 + (q - 1);
+            let mut edges: Vec<(usize, usize, f64)> = (0..p).map(|i| (i, i + 1, (1u64 << i) as f64)).collect();
+            let mut prev = 1usize;
+            for j in 0..q {
+                let next = if j + 1 == q { p } else { p + 1 + j };
+                edges.push((prev, next, (1u64 << (p + j)) as f64));
+                prev = next;
+            }
+            // the destination of the query is vertex n-1 by convention: relabel so that the path end p becomes n-1
+            let relabel = |v: usize| if v == p { n - 1 } else if v == n - 1 { p } else { v };
+            let edges = edges.into_iter().map(|(a, b, l)| (relabel(a), relabel(b), l)).collect();
+            out.push(Net { n, edges, xy: None });
+        }
+    }
+    for s in specs.iter() {
+        for (p, t) in shards(s, 2) {
+            for_each_in_shard(s, &p, t, &mut |net| {
+                // only networks whose least-cost path has at least three edges: there Yen's spur searches actually run
+                let w = World::distance(net.clone());
+                let n = net.n;
+                let paths = crate::refmodel::graph::simple_paths(net, 0, n - 1, &|_| true);
+                if paths.len() < 2 {
+                    return;
+                }
+                let best = paths.iter().map(|p| (p.iter().map(|e| w.ref_edge_cost(None, *e)).sum::<f64>(), p.len())).fold((f64::INFINITY, 0), |a, b| if b.0 < a.0 { b } else { a });
+                if best.1 >= 3 {
+                    out.push(net.clone());
+                }
+            });
+        }
+    }
+    out
+}
+
+fn yens_algo() -> Algo {
+    Algo::Yens { k: 2, under: Box::new(Algo::Dijkstra), sim: Some(Sim::EdgeCos(0.99)), term: None }
+}
+
+fn yens_sweep_case(net: &Net, st: &mut Stats) {
+    st.states += 1;
+    let w = World::distance(net.clone());
+    let algo = yens_algo();
+    let orient = Orient::Vertex { o: 0, d: Some(net.n - 1) };
+    let unlimited = match run_with(&w, &Term::Unlimited, &algo, &orient, false) {
+        Ok(r) => r,
+        Err(_) => return,
+    };
+    st.evaluations += 1;
+    st.transitions += 1;
+    st.traces += 1;
+    st.outcome(&format!("yens_unlimited:{}", unlimited.out.kind()));
+    // an unlimited run that errs or panics is C13's business; the sweep needs an answer to compare with
+    if !matches!(unlimited.out, Outcome::Ok { .. }) {
+        return;
+    }
+    st.nontrivial += 1;
+    let hi = net.n + 4;
+    for l in 0..=hi {
+        for (kind, term) in [("iterations", Term::Iterations(l as u64)), ("solution_size", Term::Size(l)), ("combined", Term::Combined(vec![Term::Iterations(l as u64), Term::Size(hi + 3)]))] {
+            st.evaluations += 1;
+            st.transitions += 1;
+            st.traces += 1;
+            let r = match run_with(&w, &term, &algo, &orient, false) {
+                Ok(r) => r,
+                Err(_) => continue,
+            };
+            let comp = format!("yens.sub_searches.{}", kind);
+            let case = || case_json(&w, &algo, &orient, false, json!({"limit": term}));
+            st.outcome(&format!("yens_{}:{}", kind, r.out.kind()));
+            match &r.out {
+                Outcome::Panic(p) => st.violation(&comp, "no_panic", net.size(), || p.clone(), case),
+                Outcome::Terminated(text) => {
+                    if names_limit(text, &term) {
+                        st.pass("yens_terminated_error_names_the_limit");
+                    } else {
+                        st.violation(&comp, "terminated_error_names_the_limit", net.size(), || format!("limit {:?} but error text is: {}", term, text), case);
+                    }
+                }
+                Outcome::OtherErr(e) => st.violation(&comp, "terminated_or_identical", net.size(), || format!("limit {:?}: {}", term, e), case),
+                Outcome::Ok { .. } | Outcome::NoPath(_) => {
+                    if same_result(&r.out, &unlimited.out, false) {
+                        st.pass("yens_result_under_limit_identical_to_unlimited");
+                    } else {
+                        st.violation(&comp, "result_under_limit_identical_to_unlimited", net.size(), || format!("limit {:?}: {} but unlimited: {}", term, r.out.text(), unlimited.out.text()), case);
+                    }
+                }
+            }
+        }
+    }
+}
+
+pub fn worker(args: &[String]) -> i32 {
+    let tier = if args.first().map(|s| s.as_str()) == Some("thorough") { Tier::Thorough } else { Tier::Quick };
+    let nets = yens_nets(tier);
+    crate::engine::sandbox::worker_loop(|i, st| {
+        yens_sweep_case(&nets[i as usize], st);
+        if i == 5 {
+            st.sample(2, || json!({"yens_limit_sweep_net": nets[i as usize]}));
+        }
+    })
+}
+
 pub fn specs(tier: Tier) -> Vec<GenSpec> {
     match tier {
         Tier::Quick => vec![
@@ -416,6 +533,37 @@ pub fn run(tier: Tier) -> i32 {
             }
         }
     }
+    // Yen's sub-searches under limits, in sandbox workers
+    {
+        use crate::engine::sandbox::{run_cases, Fate, SandboxCfg};
+        let nets = yens_nets(tier);
+        let cfg = SandboxCfg {
+            worker_args: vec!["--worker".into(), "C10".into(), tier.as_str().into()],
+            n_workers: 16,
+            case_timeout: std::time::Duration::from_millis(300),
+            block: 4,
+            budget: std::time::Duration::from_secs(tier.pick(40, 900)),
+        };
+        match run_cases(&cfg, nets.len() as u64) {
+            Ok((s2, fates)) => {
+                st.merge(s2);
+                st.notes.insert(format!("yens limit sweep: {} networks with a least-cost path of >= 3 edges and >= 2 simple paths, {} hung or died", nets.len(), fates.len()));
+                for (i, f) in fates {
+                    let net = &nets[i as usize];
+                    let w = World::distance(net.clone());
+                    let hops = "sp3plus";
+                    match f {
+                        Fate::Hang { waited_ms } => st.violation(&format!("yens.sub_searches.{}", hops), "terminates", net.size(), || format!("no answer after {} ms (second attempt, alone)", waited_ms), || case_json(&w, &yens_algo(), &Orient::Vertex { o: 0, d: Some(net.n - 1) }, false, Value::Null)),
+                        Fate::Died { how } => st.violation(&format!("yens.sub_searches.{}", hops), "does_not_abort", net.size(), || how.clone(), || case_json(&w, &yens_algo(), &Orient::Vertex { o: 0, d: Some(net.n - 1) }, false, Value::Null)),
+                    }
+                }
+            }
+            Err(e) => {
+                println!("MACHINERY-ERROR sandbox: {}", e);
+                return 2;
+            }
+        }
+    }
     let desc: Vec<String> = specs.iter().map(|s| s.describe()).collect();
     finish(
         &info,
@@ -427,6 +575,7 @@ pub fn run(tier: Tier) -> i32 {
             "expansions of vertices without incident edges are invisible to the recording frontier: observed expansions are a lower bound, so the bound clauses cannot raise a false alarm".into(),
             "exhausted runtime budget is produced soundly: 2 ms limit and a 3 ms sleep inside the k-th traversal; earlier termination on a stalled machine is legal and accepted".into(),
             "for single-via KSP only result-level clauses are evaluated (first route identical, terminated or identical)".into(),
+            "Yen's: every limit value 0..n+4 (iterations, solution size, combined) on networks whose least-cost path has >= 3 edges, in sandbox workers; an unlimited run that errs is left to C13".into(),
         ],
     )
 }
